@@ -49,14 +49,14 @@ func specDefaultKnown(t parser.ValueType) bool {
 //@   ensures[C01,C08] through-converter-once: err == nil && calls(StringToString) == 1 && arg(StringToString, 0, 0) == literal.Value() && len(result0.values) == 1 && result0.values[0] == res(StringToString, 0, 0)
 //
 //@ func (*transpiler).evaluateOperation
-//@   ensures[C04] left-then-right-once-each: err == nil ==> calls(evaluateExpression) == 2 && arg(evaluateExpression, 0, 1) == operation.Left() && arg(evaluateExpression, 1, 1) == operation.Right() && calls(callout) == 1 && seq(evaluateExpression, 1) < seq(callout, 0)
+//@   ensures[C04] left-then-right-once-each: err == nil ==> calls(evaluateExpression) == 2 && arg(evaluateExpression, 0, 1) == operation.Left() && arg(evaluateExpression, 0, 2) && arg(evaluateExpression, 1, 1) == operation.Right() && arg(evaluateExpression, 1, 2) && calls(callout) == 1 && seq(evaluateExpression, 1) < seq(callout, 0)
 //@   ensures[C01,C04] operands-in-position: err == nil ==> arg(callout, 0, 0) == res(evaluateExpression, 0, 0).firstValue() && arg(callout, 0, 1) == operation.Operator() && arg(callout, 0, 2) == res(evaluateExpression, 1, 0).firstValue()
 //@   ensures[C01,C06] typed-by-left-operand: err == nil ==> arg(callout, 0, 3) == operation.Left().ValueType() && arg(callout, 0, 4) == valueUsed
 //@   ensures[C01] result-is-callout-text: err == nil ==> len(result0.values) == 1 && result0.values[0] == res(callout, 0, 0)
 //@   ensures[C13] error-or-value: err != nil ==> len(result0.values) == 0
 //
 //@ func (*transpiler).evaluateUnaryOperation
-//@   ensures[C04] operand-once: err == nil ==> calls(evaluateExpression) == 1 && arg(evaluateExpression, 0, 1) == operation.Expression() && calls(UnaryOperation) == 1 && seq(evaluateExpression, 0) < seq(UnaryOperation, 0)
+//@   ensures[C04] operand-once: err == nil ==> calls(evaluateExpression) == 1 && arg(evaluateExpression, 0, 1) == operation.Expression() && arg(evaluateExpression, 0, 2) && calls(UnaryOperation) == 1 && seq(evaluateExpression, 0) < seq(UnaryOperation, 0)
 //@   ensures[C01] plumbing: err == nil ==> arg(UnaryOperation, 0, 0) == res(evaluateExpression, 0, 0).firstValue() && arg(UnaryOperation, 0, 1) == operation.Operator() && len(result0.values) == 1 && result0.values[0] == res(UnaryOperation, 0, 0)
 //
 //@ func (*transpiler).evaluateBinaryOperation
@@ -72,34 +72,34 @@ func specDefaultKnown(t parser.ValueType) bool {
 //@   ensures[C04] child-once: calls(evaluateExpression) == 1 && arg(evaluateExpression, 0, 1) == group.Child() && result0 == res(evaluateExpression, 0, 0) && err == res(evaluateExpression, 0, 1)
 //
 //@ func (*transpiler).evaluatePanic
-//@   ensures[C04] value-once-then-panic: result == nil ==> calls(evaluateExpression) == 1 && arg(evaluateExpression, 0, 1) == panic.Expression() && calls(Panic) == 1 && seq(evaluateExpression, 0) < seq(Panic, 0)
+//@   ensures[C04] value-once-then-panic: result == nil ==> calls(evaluateExpression) == 1 && arg(evaluateExpression, 0, 1) == panic.Expression() && arg(evaluateExpression, 0, 2) && calls(Panic) == 1 && seq(evaluateExpression, 0) < seq(Panic, 0)
 //@   ensures[C01] panic-prefix: result == nil ==> arg(Panic, 0, 0) == "panic: " + res(evaluateExpression, 0, 0).firstValue()
 //
 //@ func (*transpiler).evaluatePrint
-//@   loop 1 invariant[C04] one-evaluation-per-operand: calls(evaluateExpression) == rangeindex + 1 && calls(Print) == 0 && forall(k, 0, rangeindex + 1, arg(evaluateExpression, k, 1) == print.Expressions()[k])
+//@   loop 1 invariant[C04] one-evaluation-per-operand: calls(evaluateExpression) == rangeindex + 1 && calls(Print) == 0 && forall(k, 0, rangeindex + 1, arg(evaluateExpression, k, 1) == print.Expressions()[k] && arg(evaluateExpression, k, 2))
 //@   ensures[C04] each-operand-once-in-order: result == nil ==> calls(evaluateExpression) == len(print.Expressions()) && forall(k, 0, len(print.Expressions()), arg(evaluateExpression, k, 1) == print.Expressions()[k]) && calls(Print) == 1
 //@   ensures[C04] print-after-all-operands: result == nil && len(print.Expressions()) > 0 ==> seq(evaluateExpression, len(print.Expressions()) - 1) < seq(Print, 0)
 //
 //@ func (*transpiler).evaluateWrite
-//@   ensures[C04,C17] path-data-append-once-each-in-order: result == nil ==> calls(WriteFile) == 1 && arg(evaluateExpression, 0, 1) == write.Path() && arg(evaluateExpression, 1, 1) == write.Data() && (write.Append() == nil ==> calls(evaluateExpression) == 2) && (write.Append() != nil ==> calls(evaluateExpression) == 3 && arg(evaluateExpression, 2, 1) == write.Append())
+//@   ensures[C04,C17] path-data-append-once-each-in-order: result == nil ==> calls(WriteFile) == 1 && arg(evaluateExpression, 0, 1) == write.Path() && arg(evaluateExpression, 0, 2) && arg(evaluateExpression, 1, 1) == write.Data() && arg(evaluateExpression, 1, 2) && (write.Append() == nil ==> calls(evaluateExpression) == 2) && (write.Append() != nil ==> calls(evaluateExpression) == 3 && arg(evaluateExpression, 2, 1) == write.Append() && arg(evaluateExpression, 2, 2))
 //@   ensures[C17] arguments-in-position: result == nil ==> arg(WriteFile, 0, 0) == res(evaluateExpression, 0, 0).firstValue() && arg(WriteFile, 0, 1) == res(evaluateExpression, 1, 0).firstValue() && (write.Append() == nil ==> arg(WriteFile, 0, 2) == "0") && (write.Append() != nil ==> arg(WriteFile, 0, 2) == res(evaluateExpression, 2, 0).firstValue())
 //@   ensures[C06,C17] argument-types-checked: result == nil ==> write.Path().ValueType().IsString() && write.Data().ValueType().IsString() && (write.Append() != nil ==> write.Append().ValueType().IsBool())
 //
 //@ func (*transpiler).evaluateRead
-//@   ensures[C04,C17] path-once: err == nil ==> calls(evaluateExpression) == 1 && arg(evaluateExpression, 0, 1) == read.Path() && calls(ReadFile) == 1 && arg(ReadFile, 0, 0) == res(evaluateExpression, 0, 0).firstValue() && len(result0.values) == 1 && result0.values[0] == res(ReadFile, 0, 0)
+//@   ensures[C04,C17] path-once: err == nil ==> calls(evaluateExpression) == 1 && arg(evaluateExpression, 0, 1) == read.Path() && arg(evaluateExpression, 0, 2) && calls(ReadFile) == 1 && arg(ReadFile, 0, 0) == res(evaluateExpression, 0, 0).firstValue() && len(result0.values) == 1 && result0.values[0] == res(ReadFile, 0, 0)
 //@   ensures[C06,C17] path-type-checked: err == nil ==> read.Path().ValueType().IsString()
 //
 //@ func (*transpiler).evaluateExists
-//@   ensures[C04,C17] path-once: err == nil ==> calls(evaluateExpression) == 1 && arg(evaluateExpression, 0, 1) == exists.Path() && calls(Exists) == 1 && arg(Exists, 0, 0) == res(evaluateExpression, 0, 0).firstValue() && len(result0.values) == 1 && result0.values[0] == res(Exists, 0, 0)
+//@   ensures[C04,C17] path-once: err == nil ==> calls(evaluateExpression) == 1 && arg(evaluateExpression, 0, 1) == exists.Path() && arg(evaluateExpression, 0, 2) && calls(Exists) == 1 && arg(Exists, 0, 0) == res(evaluateExpression, 0, 0).firstValue() && len(result0.values) == 1 && result0.values[0] == res(Exists, 0, 0)
 //
 //@ func (*transpiler).evaluateItoa
-//@   ensures[C01,C04] identity-on-text: err == nil ==> calls(evaluateExpression) == 1 && arg(evaluateExpression, 0, 1) == itoa.Value() && len(result0.values) == 1 && result0.values[0] == res(evaluateExpression, 0, 0).firstValue()
+//@   ensures[C01,C04] identity-on-text: err == nil ==> calls(evaluateExpression) == 1 && arg(evaluateExpression, 0, 1) == itoa.Value() && arg(evaluateExpression, 0, 2) && len(result0.values) == 1 && result0.values[0] == res(evaluateExpression, 0, 0).firstValue()
 //
 //@ func (*transpiler).evaluateLen
-//@   ensures[C03,C04] operand-once-right-helper: err == nil ==> calls(evaluateExpression) == 1 && arg(evaluateExpression, 0, 1) == len.Expression() && (len.Expression().ValueType().IsString() ==> calls(StringLen) == 1 && calls(SliceLen) == 0 && arg(StringLen, 0, 0) == res(evaluateExpression, 0, 0).firstValue() && result0.values[0] == res(StringLen, 0, 0)) && (!len.Expression().ValueType().IsString() ==> calls(SliceLen) == 1 && calls(StringLen) == 0 && arg(SliceLen, 0, 0) == res(evaluateExpression, 0, 0).firstValue() && result0.values[0] == res(SliceLen, 0, 0))
+//@   ensures[C03,C04] operand-once-right-helper: err == nil ==> calls(evaluateExpression) == 1 && arg(evaluateExpression, 0, 1) == len.Expression() && arg(evaluateExpression, 0, 2) && (len.Expression().ValueType().IsString() ==> calls(StringLen) == 1 && calls(SliceLen) == 0 && arg(StringLen, 0, 0) == res(evaluateExpression, 0, 0).firstValue() && result0.values[0] == res(StringLen, 0, 0)) && (!len.Expression().ValueType().IsString() ==> calls(SliceLen) == 1 && calls(StringLen) == 0 && arg(SliceLen, 0, 0) == res(evaluateExpression, 0, 0).firstValue() && result0.values[0] == res(SliceLen, 0, 0))
 //
 //@ func (*transpiler).evaluateCopy
-//@   ensures[C03,C04] source-once: err == nil ==> calls(evaluateExpression) == 1 && arg(evaluateExpression, 0, 1) == copy.Source() && calls(Copy) == 1 && arg(Copy, 0, 0) == copy.Destination().Name() && arg(Copy, 0, 1) == res(evaluateExpression, 0, 0).firstValue() && arg(Copy, 0, 3) == copy.Destination().Global() && len(result0.values) == 1 && result0.values[0] == res(Copy, 0, 0)
+//@   ensures[C03,C04] source-once: err == nil ==> calls(evaluateExpression) == 1 && arg(evaluateExpression, 0, 1) == copy.Source() && arg(evaluateExpression, 0, 2) && calls(Copy) == 1 && arg(Copy, 0, 0) == copy.Destination().Name() && arg(Copy, 0, 1) == res(evaluateExpression, 0, 0).firstValue() && arg(Copy, 0, 3) == copy.Destination().Global() && len(result0.values) == 1 && result0.values[0] == res(Copy, 0, 0)
 //
 //@ func (*transpiler).evaluateInput
 //@   ensures[C04] prompt-at-most-once: err == nil ==> calls(Input) == 1 && (input.Prompt() == nil ==> calls(evaluateExpression) == 0 && arg(Input, 0, 0) == "") && (input.Prompt() != nil ==> calls(evaluateExpression) == 1 && arg(evaluateExpression, 0, 1) == input.Prompt() && arg(Input, 0, 0) == res(evaluateExpression, 0, 0).firstValue())
@@ -108,17 +108,17 @@ func specDefaultKnown(t parser.ValueType) bool {
 //@   ensures[C02,C04] no-evaluation-just-reference: err == nil ==> calls(evaluateExpression) == 0 && calls(VarEvaluation) == 1 && arg(VarEvaluation, 0, 0) == evaluation.Name() && arg(VarEvaluation, 0, 2) == evaluation.Global() && len(result0.values) == 1 && result0.values[0] == res(VarEvaluation, 0, 0)
 //
 //@ func (*transpiler).evaluateSliceEvaluation
-//@   ensures[C03,C04] value-then-index-once-each: err == nil ==> calls(evaluateExpression) == 1 && arg(evaluateExpression, 0, 1) == evaluation.Value() && calls(evaluateIndex) == 1 && arg(evaluateIndex, 0, 1) == evaluation.Index() && seq(evaluateExpression, 0) < seq(evaluateIndex, 0) && calls(SliceEvaluation) == 1 && seq(evaluateIndex, 0) < seq(SliceEvaluation, 0)
+//@   ensures[C03,C04] value-then-index-once-each: err == nil ==> calls(evaluateExpression) == 1 && arg(evaluateExpression, 0, 1) == evaluation.Value() && arg(evaluateExpression, 0, 2) && calls(evaluateIndex) == 1 && arg(evaluateIndex, 0, 1) == evaluation.Index() && seq(evaluateExpression, 0) < seq(evaluateIndex, 0) && calls(SliceEvaluation) == 1 && seq(evaluateIndex, 0) < seq(SliceEvaluation, 0)
 //@   ensures[C03] plumbing: err == nil ==> arg(SliceEvaluation, 0, 0) == res(evaluateExpression, 0, 0).firstValue() && arg(SliceEvaluation, 0, 1) == res(evaluateIndex, 0, 0).firstValue() && len(result0.values) == 1 && result0.values[0] == res(SliceEvaluation, 0, 0)
 //
 //@ func (*transpiler).evaluateStringSubscript
-//@   ensures[C04] value-start-end-in-source-order: err == nil ==> calls(evaluateExpression) == 1 && arg(evaluateExpression, 0, 1) == subscript.Value() && arg(evaluateIndex, 0, 1) == subscript.StartIndex() && seq(evaluateExpression, 0) < seq(evaluateIndex, 0)
+//@   ensures[C04] value-start-end-in-source-order: err == nil ==> calls(evaluateExpression) == 1 && arg(evaluateExpression, 0, 1) == subscript.Value() && arg(evaluateExpression, 0, 2) && arg(evaluateIndex, 0, 1) == subscript.StartIndex() && seq(evaluateExpression, 0) < seq(evaluateIndex, 0)
 //@   ensures[C04] single-index-evaluated-once: err == nil && !subscript.HasEndIndex() ==> calls(evaluateIndex) == 1
 //@   ensures[C04] range-end-evaluated-once-after-start: err == nil && subscript.HasEndIndex() ==> calls(evaluateIndex) == 2 && arg(evaluateIndex, 1, 1) == subscript.EndIndex()
 //@   ensures[C03] plumbing: err == nil ==> calls(StringSubscript) == 1 && arg(StringSubscript, 0, 0) == res(evaluateExpression, 0, 0).firstValue() && arg(StringSubscript, 0, 1) == res(evaluateIndex, 0, 0).firstValue() && (subscript.HasEndIndex() ==> arg(StringSubscript, 0, 2) == res(evaluateIndex, 1, 0).firstValue()) && (!subscript.HasEndIndex() ==> arg(StringSubscript, 0, 2) == res(evaluateIndex, 0, 0).firstValue()) && len(result0.values) == 1 && result0.values[0] == res(StringSubscript, 0, 0)
 //
 //@ func (*transpiler).evaluateSliceAssignment
-//@   ensures[C03,C04] index-then-value-once-each: result == nil ==> calls(evaluateIndex) == 1 && arg(evaluateIndex, 0, 1) == assignment.Index() && calls(evaluateExpression) == 1 && arg(evaluateExpression, 0, 1) == assignment.Value() && seq(evaluateIndex, 0) < seq(evaluateExpression, 0) && calls(SliceAssignment) == 1
+//@   ensures[C03,C04] index-then-value-once-each: result == nil ==> calls(evaluateIndex) == 1 && arg(evaluateIndex, 0, 1) == assignment.Index() && calls(evaluateExpression) == 1 && arg(evaluateExpression, 0, 1) == assignment.Value() && arg(evaluateExpression, 0, 2) && seq(evaluateIndex, 0) < seq(evaluateExpression, 0) && calls(SliceAssignment) == 1
 //@   ensures[C03] plumbing: result == nil ==> arg(SliceAssignment, 0, 0) == assignment.Name() && arg(SliceAssignment, 0, 1) == res(evaluateIndex, 0, 0).firstValue() && arg(SliceAssignment, 0, 2) == res(evaluateExpression, 0, 0).firstValue() && arg(SliceAssignment, 0, 4) == assignment.Global()
 //@   ensures[C03] default-is-element-zero-value: result == nil ==> (assignment.Value().ValueType().DataType() == parser.DATA_TYPE_BOOLEAN ==> arg(SliceAssignment, 0, 3) == "0") && (assignment.Value().ValueType().DataType() == parser.DATA_TYPE_INTEGER ==> arg(SliceAssignment, 0, 3) == "0") && (assignment.Value().ValueType().DataType() == parser.DATA_TYPE_STRING ==> calls(StringToString) == 1 && arg(StringToString, 0, 0) == "" && arg(SliceAssignment, 0, 3) == res(StringToString, 0, 0))
 //
@@ -128,38 +128,38 @@ func specDefaultKnown(t parser.ValueType) bool {
 //@   ensures[C03,C13] error-iff-unknown: (err != nil) == !specDefaultKnown(valueType)
 //
 //@ func (*transpiler).evaluateReturn
-//@   loop 1 invariant[C02,C04] one-evaluation-per-value: calls(evaluateExpression) == rangeindex + 1 && calls(Return) == 0 && len(returnValues) == rangeindex + 1 && forall(k, 0, rangeindex + 1, arg(evaluateExpression, k, 1) == returnStatement.Values()[k] && returnValues[k].value == res(evaluateExpression, k, 0).firstValue())
+//@   loop 1 invariant[C02,C04] one-evaluation-per-value: calls(evaluateExpression) == rangeindex + 1 && calls(Return) == 0 && len(returnValues) == rangeindex + 1 && forall(k, 0, rangeindex + 1, arg(evaluateExpression, k, 1) == returnStatement.Values()[k] && arg(evaluateExpression, k, 2) && returnValues[k].value == res(evaluateExpression, k, 0).firstValue())
 //@   ensures[C02,C04] values-once-in-order-then-return: result == nil ==> calls(evaluateExpression) == len(returnStatement.Values()) && forall(k, 0, len(returnStatement.Values()), arg(evaluateExpression, k, 1) == returnStatement.Values()[k]) && calls(Return) == 1
 //@   ensures[C02] registers-in-order: result == nil ==> len(arg(Return, 0, 0)) == len(returnStatement.Values()) && forall(k, 0, len(returnStatement.Values()), arg(Return, 0, 0)[k].value == res(evaluateExpression, k, 0).firstValue())
 //
 //@ func (*transpiler).evaluateFunctionCall
-//@   loop 1 invariant[C02,C04] one-evaluation-per-argument: calls(evaluateExpression) == rangeindex + 1 && calls(FuncCall) == 0 && len(args) == rangeindex + 1 && forall(k, 0, rangeindex + 1, arg(evaluateExpression, k, 1) == functionCall.Args()[k] && args[k] == res(evaluateExpression, k, 0).firstValue())
+//@   loop 1 invariant[C02,C04] one-evaluation-per-argument: calls(evaluateExpression) == rangeindex + 1 && calls(FuncCall) == 0 && len(args) == rangeindex + 1 && forall(k, 0, rangeindex + 1, arg(evaluateExpression, k, 1) == functionCall.Args()[k] && arg(evaluateExpression, k, 2) && args[k] == res(evaluateExpression, k, 0).firstValue())
 //@   ensures[C02,C04] arguments-once-in-order-then-call: err == nil ==> calls(evaluateExpression) == len(functionCall.Args()) && forall(k, 0, len(functionCall.Args()), arg(evaluateExpression, k, 1) == functionCall.Args()[k]) && calls(FuncCall) == 1
 //@   ensures[C02] arguments-in-position: err == nil ==> arg(FuncCall, 0, 0) == functionCall.Name() && len(arg(FuncCall, 0, 1)) == len(functionCall.Args()) && forall(k, 0, len(functionCall.Args()), arg(FuncCall, 0, 1)[k] == res(evaluateExpression, k, 0).firstValue()) && arg(FuncCall, 0, 3) == valueUsed
 //@   ensures[C02] all-results-or-error: err == nil && valueUsed ==> len(result0.values) == len(functionCall.ReturnTypes())
 //
 //@ func (*transpiler).evaluateSliceInstantiation
-//@   loop 1 invariant[C03,C04] one-evaluation-per-element: calls(evaluateExpression) == rangeindex + 1 && calls(SliceInstantiation) == 0 && len(values) == rangeindex + 1 && forall(k, 0, rangeindex + 1, arg(evaluateExpression, k, 1) == instantiation.Values()[k] && values[k] == res(evaluateExpression, k, 0).firstValue())
+//@   loop 1 invariant[C03,C04] one-evaluation-per-element: calls(evaluateExpression) == rangeindex + 1 && calls(SliceInstantiation) == 0 && len(values) == rangeindex + 1 && forall(k, 0, rangeindex + 1, arg(evaluateExpression, k, 1) == instantiation.Values()[k] && arg(evaluateExpression, k, 2) && values[k] == res(evaluateExpression, k, 0).firstValue())
 //@   ensures[C03,C04] elements-once-in-order: err == nil ==> calls(evaluateExpression) == len(instantiation.Values()) && forall(k, 0, len(instantiation.Values()), arg(evaluateExpression, k, 1) == instantiation.Values()[k]) && calls(SliceInstantiation) == 1
 //@   ensures[C03] element-k-is-value-k: err == nil ==> len(arg(SliceInstantiation, 0, 0)) == len(instantiation.Values()) && forall(k, 0, len(instantiation.Values()), arg(SliceInstantiation, 0, 0)[k] == res(evaluateExpression, k, 0).firstValue())
 //
 //@ func (*transpiler).evaluateVarDefinition
 //@   requires[C13] one-value-per-variable: len(definition.Values()) == len(definition.Variables())
-//@   loop 1 invariant[C01,C04] pairwise-so-far: calls(evaluateExpression) == rangeindex + 1 && calls(VarDefinition) == rangeindex + 1 && forall(k, 0, rangeindex + 1, arg(evaluateExpression, k, 1) == definition.Values()[k] && arg(VarDefinition, k, 0) == definition.Variables()[k].Name() && arg(VarDefinition, k, 1) == res(evaluateExpression, k, 0).firstValue() && arg(VarDefinition, k, 2) == definition.Variables()[k].Global())
-//@   ensures[C01,C04] value-k-once-into-variable-k: result == nil ==> calls(evaluateExpression) == len(definition.Variables()) && calls(VarDefinition) == len(definition.Variables()) && forall(k, 0, len(definition.Variables()), arg(evaluateExpression, k, 1) == definition.Values()[k] && arg(VarDefinition, k, 0) == definition.Variables()[k].Name() && arg(VarDefinition, k, 1) == res(evaluateExpression, k, 0).firstValue() && arg(VarDefinition, k, 2) == definition.Variables()[k].Global())
+//@   loop 1 invariant[C01,C04] pairwise-so-far: calls(evaluateExpression) == rangeindex + 1 && calls(VarDefinition) == rangeindex + 1 && forall(k, 0, rangeindex + 1, arg(evaluateExpression, k, 1) == definition.Values()[k] && arg(evaluateExpression, k, 2) && arg(VarDefinition, k, 0) == definition.Variables()[k].Name() && arg(VarDefinition, k, 1) == res(evaluateExpression, k, 0).firstValue() && arg(VarDefinition, k, 2) == definition.Variables()[k].Global())
+//@   ensures[C01,C04] value-k-once-into-variable-k: result == nil ==> calls(evaluateExpression) == len(definition.Variables()) && calls(VarDefinition) == len(definition.Variables()) && forall(k, 0, len(definition.Variables()), arg(evaluateExpression, k, 1) == definition.Values()[k] && arg(evaluateExpression, k, 2) && arg(VarDefinition, k, 0) == definition.Variables()[k].Name() && arg(VarDefinition, k, 1) == res(evaluateExpression, k, 0).firstValue() && arg(VarDefinition, k, 2) == definition.Variables()[k].Global())
 //
 //@ func (*transpiler).evaluateVarAssignment
 //@   requires[C13] one-value-per-variable: len(assignment.Values()) == len(assignment.Variables())
-//@   loop 1 invariant[C01,C04] pairwise-so-far: calls(evaluateExpression) == rangeindex + 1 && calls(VarDefinition) == rangeindex + 1 && forall(k, 0, rangeindex + 1, arg(evaluateExpression, k, 1) == assignment.Values()[k] && arg(VarDefinition, k, 0) == assignment.Variables()[k].Name() && arg(VarDefinition, k, 1) == res(evaluateExpression, k, 0).firstValue() && arg(VarDefinition, k, 2) == assignment.Variables()[k].Global())
-//@   ensures[C01,C02,C04] value-k-once-into-variable-k: result == nil ==> calls(evaluateExpression) == len(assignment.Variables()) && calls(VarDefinition) == len(assignment.Variables()) && forall(k, 0, len(assignment.Variables()), arg(evaluateExpression, k, 1) == assignment.Values()[k] && arg(VarDefinition, k, 0) == assignment.Variables()[k].Name() && arg(VarDefinition, k, 1) == res(evaluateExpression, k, 0).firstValue() && arg(VarDefinition, k, 2) == assignment.Variables()[k].Global())
+//@   loop 1 invariant[C01,C04] pairwise-so-far: calls(evaluateExpression) == rangeindex + 1 && calls(VarDefinition) == rangeindex + 1 && forall(k, 0, rangeindex + 1, arg(evaluateExpression, k, 1) == assignment.Values()[k] && arg(evaluateExpression, k, 2) && arg(VarDefinition, k, 0) == assignment.Variables()[k].Name() && arg(VarDefinition, k, 1) == res(evaluateExpression, k, 0).firstValue() && arg(VarDefinition, k, 2) == assignment.Variables()[k].Global())
+//@   ensures[C01,C02,C04] value-k-once-into-variable-k: result == nil ==> calls(evaluateExpression) == len(assignment.Variables()) && calls(VarDefinition) == len(assignment.Variables()) && forall(k, 0, len(assignment.Variables()), arg(evaluateExpression, k, 1) == assignment.Values()[k] && arg(evaluateExpression, k, 2) && arg(VarDefinition, k, 0) == assignment.Variables()[k].Name() && arg(VarDefinition, k, 1) == res(evaluateExpression, k, 0).firstValue() && arg(VarDefinition, k, 2) == assignment.Variables()[k].Global())
 //
 //@ func (*transpiler).evaluateVarDefinitionCallAssignment
 //@   loop 1 invariant[C02] position-k-to-variable-k: calls(VarDefinition) == rangeindex + 1 && calls(evaluateExpression) == 1 && forall(k, 0, rangeindex + 1, arg(VarDefinition, k, 0) == definition.Variables()[k].Name() && arg(VarDefinition, k, 1) == res(evaluateExpression, 0, 0).values[k] && arg(VarDefinition, k, 2) == definition.Variables()[k].Global())
-//@   ensures[C02,C04] call-once-then-position-k-to-variable-k: result == nil ==> calls(evaluateExpression) == 1 && arg(evaluateExpression, 0, 1) == asExprCall(definition.Call()) && len(res(evaluateExpression, 0, 0).values) == len(definition.Variables()) && calls(VarDefinition) == len(definition.Variables()) && forall(k, 0, len(definition.Variables()), arg(VarDefinition, k, 0) == definition.Variables()[k].Name() && arg(VarDefinition, k, 1) == res(evaluateExpression, 0, 0).values[k] && arg(VarDefinition, k, 2) == definition.Variables()[k].Global())
+//@   ensures[C02,C04] call-once-then-position-k-to-variable-k: result == nil ==> calls(evaluateExpression) == 1 && arg(evaluateExpression, 0, 1) == asExprCall(definition.Call()) && arg(evaluateExpression, 0, 2) && len(res(evaluateExpression, 0, 0).values) == len(definition.Variables()) && calls(VarDefinition) == len(definition.Variables()) && forall(k, 0, len(definition.Variables()), arg(VarDefinition, k, 0) == definition.Variables()[k].Name() && arg(VarDefinition, k, 1) == res(evaluateExpression, 0, 0).values[k] && arg(VarDefinition, k, 2) == definition.Variables()[k].Global())
 //
 //@ func (*transpiler).evaluateVarAssignmentCallAssignment
 //@   loop 1 invariant[C02] position-k-to-variable-k: calls(VarDefinition) == rangeindex + 1 && calls(evaluateExpression) == 1 && forall(k, 0, rangeindex + 1, arg(VarDefinition, k, 0) == assignment.Variables()[k].Name() && arg(VarDefinition, k, 1) == res(evaluateExpression, 0, 0).values[k] && arg(VarDefinition, k, 2) == assignment.Variables()[k].Global())
-//@   ensures[C02,C04] call-once-then-position-k-to-variable-k: result == nil ==> calls(evaluateExpression) == 1 && arg(evaluateExpression, 0, 1) == asExprCall(assignment.Call()) && len(res(evaluateExpression, 0, 0).values) == len(assignment.Variables()) && calls(VarDefinition) == len(assignment.Variables()) && forall(k, 0, len(assignment.Variables()), arg(VarDefinition, k, 0) == assignment.Variables()[k].Name() && arg(VarDefinition, k, 1) == res(evaluateExpression, 0, 0).values[k] && arg(VarDefinition, k, 2) == assignment.Variables()[k].Global())
+//@   ensures[C02,C04] call-once-then-position-k-to-variable-k: result == nil ==> calls(evaluateExpression) == 1 && arg(evaluateExpression, 0, 1) == asExprCall(assignment.Call()) && arg(evaluateExpression, 0, 2) && len(res(evaluateExpression, 0, 0).values) == len(assignment.Variables()) && calls(VarDefinition) == len(assignment.Variables()) && forall(k, 0, len(assignment.Variables()), arg(VarDefinition, k, 0) == assignment.Variables()[k].Name() && arg(VarDefinition, k, 1) == res(evaluateExpression, 0, 0).values[k] && arg(VarDefinition, k, 2) == assignment.Variables()[k].Global())
 //
 //@ func (*transpiler).evaluateBlock
 //@   loop 1 invariant[C04,C16] statement-k-once: calls(evaluate) == rangeindex + 1 && calls(Nop) == 0 && forall(k, 0, rangeindex + 1, arg(evaluate, k, 1) == block.Body()[k])
@@ -173,19 +173,19 @@ func specDefaultKnown(t parser.ValueType) bool {
 //
 //@ func (*transpiler).evaluateFor
 //@   ensures[C01,C04,C16] protocol-order: result == nil ==> calls(ForStart) == 1 && calls(ForCondition) == 1 && calls(evaluateBlock) == 1 && calls(ForEnd) == 1 && calls(evaluateExpression) == 1 && seq(ForStart, 0) < seq(evaluateExpression, 0) && seq(evaluateExpression, 0) < seq(ForCondition, 0) && seq(ForCondition, 0) < seq(evaluateBlock, 0) && seq(evaluateBlock, 0) < seq(ForEnd, 0)
-//@   ensures[C01,C04] condition-once-per-iteration-after-increment: result == nil ==> arg(evaluateExpression, 0, 1) == forStatement.Condition() && arg(ForCondition, 0, 0) == res(evaluateExpression, 0, 0).firstValue() && arg(evaluateBlock, 0, 1) == asBlockFor(forStatement)
+//@   ensures[C01,C04] condition-once-per-iteration-after-increment: result == nil ==> arg(evaluateExpression, 0, 1) == forStatement.Condition() && arg(evaluateExpression, 0, 2) && arg(ForCondition, 0, 0) == res(evaluateExpression, 0, 0).firstValue() && arg(evaluateBlock, 0, 1) == asBlockFor(forStatement)
 //@   ensures[C01,C04] init-before-loop: result == nil && forStatement.Init() != nil && forStatement.Increment() == nil ==> calls(evaluate) == 1 && arg(evaluate, 0, 1) == forStatement.Init() && seq(evaluate, 0) < seq(ForStart, 0)
 //@   ensures[C01,C04] increment-guarded-before-condition: result == nil && forStatement.Increment() != nil ==> calls(ForIncrementStart) == 1 && calls(ForIncrementEnd) == 1 && seq(ForStart, 0) < seq(ForIncrementStart, 0) && seq(ForIncrementStart, 0) < seq(evaluate, calls(evaluate) - 1) && seq(evaluate, calls(evaluate) - 1) < seq(ForIncrementEnd, 0) && seq(ForIncrementEnd, 0) < seq(evaluateExpression, 0) && arg(evaluate, calls(evaluate) - 1, 1) == forStatement.Increment()
 //@   ensures[C01,C04] no-increment-no-guard: result == nil && forStatement.Increment() == nil ==> calls(ForIncrementStart) == 0 && calls(ForIncrementEnd) == 0
 //@   ensures[C01,C04] init-and-increment: result == nil && forStatement.Init() != nil && forStatement.Increment() != nil ==> calls(evaluate) == 2 && arg(evaluate, 0, 1) == forStatement.Init() && seq(evaluate, 0) < seq(ForStart, 0)
 //
 //@ func (*transpiler).evaluateIf
-//@   loop 1 invariant[C01,C04] conditions-first: calls(evaluateExpression) == rangeindex + 2 && calls(IfStart) == 0 && calls(evaluateBlock) == 0 && len(elifConditions) == rangeindex + 1 && arg(evaluateExpression, 0, 1) == ifStatement.IfBranch().Condition() && forall(k, 0, rangeindex + 1, arg(evaluateExpression, k + 1, 1) == ifStatement.ElseIfBranches()[k].Condition() && elifConditions[k] == res(evaluateExpression, k + 1, 0).firstValue())
+//@   loop 1 invariant[C01,C04] conditions-first: calls(evaluateExpression) == rangeindex + 2 && calls(IfStart) == 0 && calls(evaluateBlock) == 0 && len(elifConditions) == rangeindex + 1 && arg(evaluateExpression, 0, 1) == ifStatement.IfBranch().Condition() && arg(evaluateExpression, 0, 2) && forall(k, 0, rangeindex + 1, arg(evaluateExpression, k + 1, 1) == ifStatement.ElseIfBranches()[k].Condition() && arg(evaluateExpression, k + 1, 2) && elifConditions[k] == res(evaluateExpression, k + 1, 0).firstValue())
 //@   loop 2 invariant[C01,C04,C16] branches-in-order: calls(evaluateExpression) == len(ifStatement.ElseIfBranches()) + 1 && calls(IfStart) == 1 && calls(ElseIfStart) == rangeindex + 1 && calls(ElseIfEnd) == rangeindex + 1 && calls(evaluateBlock) == rangeindex + 2 && calls(ElseStart) == 0 && calls(IfEnd) == 0 && len(elifConditions) == len(ifStatement.ElseIfBranches())
-//@   loop 2 invariant[C01,C04] condition-k-opens-branch-k: forall(k, 0, rangeindex + 1, arg(ElseIfStart, k, 0) == res(evaluateExpression, k + 1, 0).firstValue() && arg(evaluateBlock, k + 1, 1) == asBlockBranch(ifStatement.ElseIfBranches()[k])) && forall(k, 0, len(ifStatement.ElseIfBranches()), elifConditions[k] == res(evaluateExpression, k + 1, 0).firstValue() && arg(evaluateExpression, k + 1, 1) == ifStatement.ElseIfBranches()[k].Condition())
-//@   loop 2 invariant[C01,C04] head-kept: arg(evaluateExpression, 0, 1) == ifStatement.IfBranch().Condition() && arg(IfStart, 0, 0) == res(evaluateExpression, 0, 0).firstValue() && arg(evaluateBlock, 0, 1) == asBlockBranch(ifStatement.IfBranch())
+//@   loop 2 invariant[C01,C04] condition-k-opens-branch-k: forall(k, 0, rangeindex + 1, arg(ElseIfStart, k, 0) == res(evaluateExpression, k + 1, 0).firstValue() && arg(evaluateBlock, k + 1, 1) == asBlockBranch(ifStatement.ElseIfBranches()[k])) && forall(k, 0, len(ifStatement.ElseIfBranches()), elifConditions[k] == res(evaluateExpression, k + 1, 0).firstValue() && arg(evaluateExpression, k + 1, 1) == ifStatement.ElseIfBranches()[k].Condition() && arg(evaluateExpression, k + 1, 2))
+//@   loop 2 invariant[C01,C04] head-kept: arg(evaluateExpression, 0, 1) == ifStatement.IfBranch().Condition() && arg(evaluateExpression, 0, 2) && arg(IfStart, 0, 0) == res(evaluateExpression, 0, 0).firstValue() && arg(evaluateBlock, 0, 1) == asBlockBranch(ifStatement.IfBranch())
 //@   loop 2 invariant[C04] all-conditions-before-first-branch: forall(k, 0, calls(evaluateExpression), seq(evaluateExpression, k) < seq(IfStart, 0))
-//@   ensures[C04] every-condition-once-before-any-branch: result == nil ==> calls(evaluateExpression) == len(ifStatement.ElseIfBranches()) + 1 && arg(evaluateExpression, 0, 1) == ifStatement.IfBranch().Condition() && forall(k, 0, len(ifStatement.ElseIfBranches()), arg(evaluateExpression, k + 1, 1) == ifStatement.ElseIfBranches()[k].Condition()) && calls(IfStart) == 1 && forall(k, 0, calls(evaluateExpression), seq(evaluateExpression, k) < seq(IfStart, 0))
+//@   ensures[C04] every-condition-once-before-any-branch: result == nil ==> calls(evaluateExpression) == len(ifStatement.ElseIfBranches()) + 1 && arg(evaluateExpression, 0, 1) == ifStatement.IfBranch().Condition() && arg(evaluateExpression, 0, 2) && forall(k, 0, len(ifStatement.ElseIfBranches()), arg(evaluateExpression, k + 1, 1) == ifStatement.ElseIfBranches()[k].Condition()) && calls(IfStart) == 1 && forall(k, 0, calls(evaluateExpression), seq(evaluateExpression, k) < seq(IfStart, 0))
 //@   ensures[C01,C16] chain-shape: result == nil ==> calls(ElseIfStart) == len(ifStatement.ElseIfBranches()) && calls(ElseIfEnd) == len(ifStatement.ElseIfBranches()) && calls(IfEnd) == 1 && (ifStatement.HasElse() ==> calls(ElseStart) == 1 && calls(ElseEnd) == 1 && calls(evaluateBlock) == len(ifStatement.ElseIfBranches()) + 2) && (!ifStatement.HasElse() ==> calls(ElseStart) == 0 && calls(ElseEnd) == 0 && calls(evaluateBlock) == len(ifStatement.ElseIfBranches()) + 1)
 //@   ensures[C01,C04] condition-k-guards-branch-k: result == nil ==> arg(IfStart, 0, 0) == res(evaluateExpression, 0, 0).firstValue() && arg(evaluateBlock, 0, 1) == asBlockBranch(ifStatement.IfBranch()) && forall(k, 0, len(ifStatement.ElseIfBranches()), arg(ElseIfStart, k, 0) == res(evaluateExpression, k + 1, 0).firstValue() && arg(evaluateBlock, k + 1, 1) == asBlockBranch(ifStatement.ElseIfBranches()[k]))
 //
